@@ -113,6 +113,9 @@ def extra(ctx):
     reproduced = {}
     for kind, case in sorted(witnesses.items()):
         fid = f"C07-{kind}"
+        if "compile-refused" in case.tags:
+            reproduced[fid] = "compile-refused"
+            continue
         impl = [i for (_op, i) in case.ops if i.startswith("res=")]
         first = impl[0].split()[0] if impl else "missing"
         reproduced[fid] = first
